@@ -120,6 +120,12 @@ def run_codes(ctx, case):
         return
     # --- structural clauses
     ctx.close(cw.conj() @ cw.T, np.eye(K), 1e-10, 'code words orthonormal')
+    # the encoding circuit object is the caller's: generating the code words again from the SAME object gives the same code words
+    nq_before = code['encode'].num_qubit
+    cw_again = nq.qec.generate_code_np(code['encode'], K)
+    ctx.require(cw_again.shape == cw.shape, 'generate_code_np called again on the same circuit object: same shape', f'{cw_again.shape} vs {cw.shape}')
+    ctx.close(cw_again, cw, 1e-12, 'generate_code_np called again on the same circuit object: same code words')
+    ctx.require(code['encode'].num_qubit == nq_before == n, 'generate_code_np leaves the encoding circuit as it was', f'{nq_before} -> {code["encode"].num_qubit} (n={n})')
     # the library's own KL routine and loss agree with the reference on this code (loss = 0 <=> KL)
     errs = nq.qec.make_error_list(n, d)
     if len(errs) <= 4000:
